@@ -478,6 +478,11 @@ def If(c, a, b):
     return mk_int(z3.If(zbool(c), zint(a), zint(b)))
 
 def Abs(x):
+    """Non-forking absolute value."""
+    if isinstance(x, SInt):
+        return mk_int(z3.If(x.t >= 0, x.t, -x.t))
+    if isinstance(x, SBool):
+        return SInt(zint(x))
     return abs(x)
 
 def Min(a, b):
